@@ -46,6 +46,14 @@ def oracle(xs, op, capn, T):
     def byte(x):
         return 0 <= x < 256
 
+    # the value argument is a reference to element idx of the view itself (valid for a vector: the
+    # element's value before the call is used)
+    if k in ("pbs", "i1s", "ins", "ans", "rvs"):
+        idx = op[-1]
+        if not 0 <= idx < n:
+            return False, xs, None, n
+        plain = {"pbs": "pb", "i1s": "i1", "ins": "in", "ans": "an", "rvs": "rv"}[k]
+        return oracle(xs, (plain,) + tuple(op[1:-1]) + (xs[idx],), capn, T)
     if k == "pb":
         ok = byte(op[1]) and fits(n + 1)
         return ok, xs + [op[1]], None, n + 1
@@ -115,6 +123,12 @@ def menu_full(n, capn):
     m += [("i1", p, x) for p in range(-1, n + 2) for x in vals]
     m += [("in", p, c, x) for p in range(0, n + 1) for c in (0, 1, 2) for x in vals]
     m += [("in", -1, 1, A), ("in", n + 1, 1, A)]
+    # value arguments that alias an element of the view
+    for idx in range(n):
+        m += [("pbs", idx)]
+        m += [("i1s", p, idx) for p in range(0, n + 1)]
+        m += [("ins", p, c, idx) for p in range(0, n + 1) for c in (1, 2)]
+        m += [("rvs", c, idx) for c in range(0, capn + 1)]
     for k in ("if", "ii", "il"):
         m += [(k, p, ys) for p in range(0, n + 1) for ys in ls]
         m += [(k, -1, (A,)), (k, n + 1, (A,))]
@@ -141,6 +155,9 @@ def menu_red(n, capn):
          ("il", n, (B, A)),
          ("rs", n + 1), ("rs", max(n - 1, 0)), ("rv", n + 2, B), ("rd", n + 1), ("rd", max(n - 1, 0)),
          ("an", 2, B), ("ai", (A, B)), ("al", (B,)), ("as", (B, A)), ("ar", ()), ("ar", (A, B, B))]
+    if n >= 1:
+        m += [("i1s", 0, n - 1), ("i1s", mid, n - 1), ("ins", 0, 2, mid), ("rvs", n + 2, 0),
+              ("pbs", 0), ("i1s", n, 0)]
     seen, out = set(), []
     for o in m:
         if o not in seen:
@@ -218,9 +235,13 @@ def random_seq(rng, xs0, capn, T, length, alphabet_full=True):
             o = ("er", f, l + (1 if want_invalid else 0))
         elif k == "i1":
             o = ("i1", p if not want_invalid else n + 1, val())
+            if n and rng.chance(1, 3):
+                o = ("i1s", p, rng.below(n))
         elif k == "in":
             c = rng.below(min(room, 6) + 1) if not want_invalid else room + 1
             o = ("in", p, c, val())
+            if n and rng.chance(1, 3) and not want_invalid:
+                o = ("ins", p, c, rng.below(n))
         elif k in ("if", "ii", "il"):
             mx = min(room, 4 if k == "il" else 7)
             ys = lst(mx) if not want_invalid else tuple(val() for _ in range(room + 1))
@@ -231,6 +252,10 @@ def random_seq(rng, xs0, capn, T, length, alphabet_full=True):
             o = (k, rng.below(ms + 1) if not want_invalid else ms + 1)
         elif k in ("rv", "an"):
             o = (k, rng.below(ms + 1) if not want_invalid else ms + 1, val())
+            # (assign(n, t) with t referring into the container is a precondition violation for
+            # std::vector too, so only resize gets an aliasing argument)
+            if k == "rv" and n and rng.chance(1, 3) and not want_invalid:
+                o = ("rvs", o[1], rng.below(n))
         elif k in ("ai", "ar", "as"):
             ys = lst(min(ms, 12), nonzero=(k == "as"))
             if want_invalid:
